@@ -5,17 +5,20 @@
 (* after the other; one that does not fit is cut to what is left (with an  *)
 (* ellipsis) and later ones are dropped; two spacing columns are reserved  *)
 (* when at least two columns remain and the bar is not trimmed; the filler *)
-(* gets the rest.  C07: the row never exceeds the terminal width.          *)
+(* gets the rest, or the width asked for with BarWidth when that is less. *)
+(* C07: the row never exceeds the terminal width.                          *)
 (***************************************************************************)
 EXTENDS Integers, Sequences, TLC, Json
 
 CONSTANTS MaxTW, DecW, MaxDec
+ReqW == {0, -1, 4, 20}   \* not given; not positive; small; wider than any terminal of the model
 
 VARIABLES p, pc, avail, i, written, cut
 vars == <<p, pc, avail, i, written, cut>>
 
 Seqs(S, n) == UNION {[1..k -> S] : k \in 0..n}
-Params == [tw : 0..MaxTW, left : Seqs(DecW, MaxDec), right : Seqs(DecW, MaxDec), trim : BOOLEAN, wideText : BOOLEAN]
+\* req: the width asked for with BarWidth (0: the option is not given and the bar inherits the container's width)
+Params == [tw : 0..MaxTW, left : Seqs(DecW, MaxDec), right : Seqs(DecW, MaxDec), trim : BOOLEAN, wideText : BOOLEAN, req : ReqW]
 
 Init == p \in Params /\ pc = "left" /\ avail = p.tw /\ i = 1 /\ written = 0 /\ cut = 0
 
@@ -36,8 +39,10 @@ Spaces ==
      ELSE avail' = avail - 2 /\ written' = written + 2
   /\ pc' = "fill" /\ UNCHANGED <<i, cut>>
 
-(* the filler is any filler that respects the width it is given (Fill.tla: NeverTooWide, ExactBody) *)
-Filler == /\ pc = "fill" /\ \E w \in {0, avail} : written' = written + w
+(* the filler is any filler that respects the width it is given (Fill.tla: NeverTooWide, ExactBody); it is given the
+   requested width when that is positive and fits into what the decorators left (internal.CheckRequestedWidth) *)
+FillW == LET r == IF p.req = 0 THEN p.tw ELSE p.req IN IF r < 1 \/ r > avail THEN avail ELSE r
+Filler == /\ pc = "fill" /\ \E w \in {0, FillW} : written' = written + w
           /\ pc' = "done" /\ UNCHANGED <<avail, i, cut>>
 
 Next == /\ (Decorate("left", p.left, "right") \/ Decorate("right", p.right, "spaces") \/ Spaces \/ Filler)
